@@ -69,10 +69,18 @@ def build_message(spec):
     return IndiMessage.from_string(spell(spec, library_style()))
 
 
+REACTIONS = {"enableBLOB": ["setBLOBVector", "setTextVector"], "getProperties": ["defTextVector", "setBLOBVector"],
+             "newTextVector": ["setTextVector"], "newBLOBVector": ["setBLOBVector"]}
+
+
 class RecDevice(Device):
-    def __init__(self, did, name, log, catch_all=False, raises_on=None):
+    def __init__(self, did, name, log, catch_all=False, raises_on=None, reactor=None):
         self.did, self.name, self.log, self.catch_all = did, name, log, catch_all
         self.raises_on = raises_on  # message kind on which this endpoint fails (a buggy driver handler)
+        # (router, probe): this endpoint answers synchronously, from inside message_from_client, with messages of its own
+        # (a camera re-publishing its frame on enableBLOB, a driver answering getProperties) - routed while the router is
+        # still busy with the client's message
+        self.reactor = reactor
 
     def accepts(self, device):
         return self.catch_all or device is None or device == self.name
@@ -81,6 +89,11 @@ class RecDevice(Device):
         self.log(("dev", self.did, message))
         if self.raises_on and message.tag_name() == self.raises_on:
             raise RuntimeError("injected failure in a device endpoint")
+        if self.reactor and message.tag_name() in REACTIONS:
+            router, probe = self.reactor
+            for i, kind in enumerate(REACTIONS[message.tag_name()]):
+                probe("device_answered_inside_router_call")
+                router.process_message(build_message(make_spec(random.Random(i), kind, self.name)), sender=self)
 
 
 class RecClient(Client):
@@ -118,13 +131,13 @@ def generate(seed, tier, index, focus):
     steps = []
     if level == 1:
         for _ in range(rng.randint(0, 3)):
-            steps.append({"op": "reg_dev", "name": rng.choice(["A", "B", "*"]), "kind": rng.choice(["rec", "rec", "both", "driver", "raiser"])})
+            steps.append({"op": "reg_dev", "name": rng.choice(["A", "B", "*"]), "kind": rng.choice(["rec", "rec", "both", "driver", "raiser", "reactor", "reactor"])})
         for _ in range(rng.randint(0, 3)):
             steps.append({"op": "reg_cli"})
         for _ in range(n):
             r = rng.random()
             if r < 0.06:
-                steps.append({"op": "reg_dev", "name": rng.choice(["A", "B", "*"]), "kind": rng.choice(["rec", "rec", "both", "driver"])})
+                steps.append({"op": "reg_dev", "name": rng.choice(["A", "B", "*"]), "kind": rng.choice(["rec", "rec", "both", "driver", "reactor"])})
             elif r < 0.14:
                 steps.append({"op": "reg_cli"})
             elif r < 0.2:
@@ -146,7 +159,7 @@ def generate(seed, tier, index, focus):
         return {"level": 1, "steps": steps, "focus": focus}
     # level 2
     for _ in range(rng.randint(1, 3)):
-        steps.append({"op": "reg_dev", "name": rng.choice(["A", "B", "*"])})
+        steps.append({"op": "reg_dev", "name": rng.choice(["A", "B", "*"]), "kind": rng.choice(["rec", "rec", "reactor"])})
     for _ in range(rng.randint(1, 3)):
         steps.append({"op": "connect"})
     for _ in range(n):
@@ -345,7 +358,8 @@ def execute_level1(scen):
             router.register_client(d)
         else:
             catch = name == "*"
-            d = RecDevice(did, "A" if catch else name, log, catch_all=catch, raises_on="pingReply" if kind == "raiser" else None)
+            d = RecDevice(did, "A" if catch else name, log, catch_all=catch, raises_on="pingReply" if kind == "raiser" else None,
+                          reactor=(router, chk.probe) if kind == "reactor" else None)
             chk.ids.hold(d)
             chk.ids[id(d)] = did
             router.register_device(d)
@@ -456,7 +470,8 @@ def execute_level2(scen):
                 if op == "reg_dev":
                     did = f"d{len(devices)}"
                     catch = st["name"] == "*"
-                    d = RecDevice(did, "A" if catch else st["name"], log, catch_all=catch)
+                    d = RecDevice(did, "A" if catch else st["name"], log, catch_all=catch,
+                                  reactor=(router, chk.probe) if st.get("kind") == "reactor" else None)
                     chk.ids.hold(d)
                     chk.ids[id(d)] = did
                     router.register_device(d)
